@@ -88,6 +88,15 @@ Expected(c) == ExpectedX(FALSE, c)
 
 \* the desired state, once reached by all objects, is not left again (cases that flicker are not generated: whether
 \* a waiter catches a state that lasts one tick is a matter of timing, not of the property)
-Stable(c) == \A code \in BOOLEAN : \A k \in 1..Ticks(c) :
-               AllDesiredAtX(code, c, k) => \A j \in k..Ticks(c) : AllDesiredAtX(code, c, j)
+\* A tick publishes the new statuses object by object (the cluster has no transactions, and a watcher learns about
+\* different kinds through different streams, in any order): no state in which only SOME objects have their new
+\* status may be the first desired one either - with two objects "pod becomes ready" and "configmap disappears" in
+\* the same tick pass through a state in which a waiter may rightly end.
+MicroDesiredX(code, c, k, J) ==
+  \A i \in DOMAIN c.objs : DesiredX(code, c.method, c.strategy, c.objs[i].kind,
+                                    IF i \in J THEN At(c.objs[i].script, k) ELSE At(c.objs[i].script, k - 1))
+Stable(c) == \A code \in BOOLEAN :
+               /\ \A k \in 1..Ticks(c) : AllDesiredAtX(code, c, k) => \A j \in k..Ticks(c) : AllDesiredAtX(code, c, j)
+               /\ \A k \in 2..Ticks(c) : \A J \in (SUBSET DOMAIN c.objs) \ {{}, DOMAIN c.objs} :
+                     MicroDesiredX(code, c, k, J) => AllDesiredAtX(code, c, k - 1)
 =============================================================================
